@@ -159,3 +159,29 @@ def run(ctx):
         for coins in itertools.product([0, 1], repeat=nr):
             check_case(ctx, impl, rows, r, obs, kinds, 'tape', coins=list(coins))
             ctx.count('tape-sequences')
+    # the same measurement through a measurement layer (Circuit.measure(*qubits)): qubits in any listed order, repeats allowed
+    import impl as _impl
+    CI_ = _impl.CI
+    for _ in range(ctx.budget(60, 600)):
+        n = rng.choice([1, 2, 3, 4, 5])
+        rows, r = G.rand_tableau(rng, n)
+        qs = [rng.randrange(n) for _k in range(rng.randrange(1, 5))]
+        zs = [(tuple('Z' if i == q else 'I' for i in range(n)), 0) for q in qs]
+        sd = rng.randrange(1 << 30)
+        st1, st2 = _impl.state(rows, r), _impl.state(rows, r)
+        try:
+            R.seed_numba(sd)
+            out1, lp1 = st1.measure(_impl.plist(zs, n))
+            c_ = CI_.Circuit(n)
+            c_.measure(*qs)
+            R.seed_numba(sd)
+            c_.forward(st2)
+        except Exception as e:
+            ctx.fail('MeasureLayer.forward', 'implementation raised %r' % e, dict(rows=rows, r=r, qubits=qs)); continue
+        a_ = ([1 - 2 * int(v) for v in out1], float(lp1), _impl.ops_of(st1), int(st1.r))
+        b_ = ([int(v) for v in c_.measure_result], float(c_.log2prob), _impl.ops_of(st2), int(st2.r))
+        ctx.case(('layer-vs-direct', tuple(rows), r, tuple(qs), sd), len(set(qs)) < len(qs) or qs != sorted(qs), sample=dict(op='Circuit.measure vs state.measure', N=n, r=r, qubits=qs))
+        ctx.count('layer-vs-direct')
+        if a_ != b_:
+            ctx.fail('MeasureLayer.forward', 'measuring Z on qubits %s through a measurement layer differs from measuring the same list directly (same coins): %s vs %s' % (qs, str(b_)[:200], str(a_)[:200]),
+                     dict(rows=rows, r=r, qubits=qs, seed=sd))
